@@ -2662,6 +2662,18 @@ func (e *Exec) callBuiltin(name string, args []Value, c *ssa.CallCommon) Value {
 	case "delete":
 		e.mapDelete(args[0].(*MapVal), args[1])
 		return nil
+	case "clear":
+		if m, ok := args[0].(*MapVal); ok {
+			if !m.isNil {
+				if e.curThread != 0 {
+					e.recordAccess("W", fmt.Sprintf("map%d", m.id))
+				}
+				m.keys, m.vals = nil, nil
+			}
+			return nil
+		}
+		e.unsupported("builtin clear on %T", args[0])
+		return nil
 	case "print", "println":
 		return nil
 	case "min", "max":
